@@ -2077,9 +2077,10 @@ class Engine:
 
     def slice_range(self, sl, n):
         """positions selected by a slice of a sequence of length n (concrete, value-forking symbolic bounds)"""
-        lo = None if sl.lower is None else self.ev(sl.lower)
-        hi = None if sl.upper is None else self.ev(sl.upper)
-        st = None if sl.step is None else self.ev(sl.step)
+        ev = (lambda v: v) if isinstance(sl, SliceObj) else self.ev
+        lo = None if sl.lower is None else ev(sl.lower)
+        hi = None if sl.upper is None else ev(sl.upper)
+        st = None if sl.step is None else ev(sl.step)
         for v in (lo, hi, st):
             if v is not None and not numeric(v.v if isinstance(v, EnumVal) else v):
                 self.throw("TypeError", "slice indices must be integers or None")
@@ -2100,11 +2101,16 @@ class Engine:
         o = self.ev(e.value)
         if isinstance(o, (Native, Cls)) or o is None:
             return o                       # typing subscripts such as Optional[int]
-        if isinstance(e.slice, ast.Slice):
+        sl = e.slice
+        if not isinstance(sl, ast.Slice):
+            sl = self.ev(sl)
+            if not isinstance(sl, SliceObj):
+                return self.getitem(o, sl)
+        if True:
             kind, seq = self.seq_of(o)
             if kind is None:
                 raise Unsupported(f"slice of {type(o).__name__}")
-            rng = self.slice_range(e.slice, len(seq))
+            rng = self.slice_range(sl, len(seq))
             if isinstance(o, str):
                 return "".join(o[i] for i in rng)
             r = [seq[i] for i in rng]
@@ -2115,7 +2121,6 @@ class Engine:
             if kind == "list":
                 return self.mk_list(r)
             return tuple(r)
-        return self.getitem(o, self.ev(e.slice))
 
     def getitem(self, o, idx):
         if isinstance(o, PDict):
@@ -2179,6 +2184,8 @@ class Engine:
         return mk_int(build(0, n), w)
 
     def setitem(self, o, idx, v):
+        if isinstance(idx, SliceObj):
+            return self.setslice(o, idx, v)
         if isinstance(o, PDict):
             self.dict_set(o, idx, v)
             return
